@@ -58,6 +58,20 @@ class C09(WigBedProp):
                  "pass": r.choice([1, 2]), "inmem": 0 if k3 % 3 else 1, "rt": "mt", "threads": r.choice([2, 4]), "chan": r.choice([0, 1, 100]),
                  "src": r.choice(["iter", "par"]), "sort": "all", "delay": r.range(1, 1 << 30)}
             out.append(CaseT(f"spill{k3}", kind, [], [bbgen.opt_line(o)] + lines, self.common_tags(o, names, data, {kind, "chromosomes_spill_bufwriter"})))
+        # items_per_slot beyond the 16-bit item count of a bigWig section header, with a chromosome that has more items than that
+        for k4, kind in enumerate(("wig", "bed") if tier == "thorough" else ("wig",)):
+            r = rng.fork(f"ipsbig{k4}")
+            n_ = 65536 + r.range(5, 3000)
+            names, sizes = ["chr1", "chr2"], {"chr1": 2 * n_ + 10, "chr2": 50}
+            o = bbgen.gen_options(r, tier)
+            o.update({"ips": r.choice([65536, 70000, 100000]), "zooms": "none", "src": "iter", "sort": "all"})
+            if kind == "wig":
+                data = {"chr1": [(2 * i, 2 * i + 1, bbgen.f32bits(float(1 + i % 5))) for i in range(n_)], "chr2": [(3, 9, bbgen.f32bits(2.0))]}
+                lines = bbgen.wig_lines(names, sizes, data)
+            else:
+                data = {"chr1": [(2 * i, 2 * i + 1, "") for i in range(n_)], "chr2": [(3, 9, "")]}
+                lines = bbgen.bed_lines(names, sizes, data)
+            out.append(CaseT(f"ipsbig{k4}", kind, [], [bbgen.opt_line(o)] + lines, self.common_tags(o, names, data, {kind, "items_per_slot_over_u16"})))
         # more chromosomes than the default block size of the chromosome tree and of the indexes (256)
         for k2, kind in enumerate(("wig", "bed") if tier != "thorough" else ("wig", "bed", "wig", "bed")):
             r = rng.fork(f"manychroms{k2}")
